@@ -14,7 +14,7 @@ from . import c04
 LEVEL = 'exploration'
 TECHNIQUE = 'metamorphic runtime monitoring: connection B after history A on one object vs B on a fresh object'
 BUDGET_S = {'quick': 30, 'thorough': 200}
-REQUIRED = {'all': ['oracle.pairs_compared', 'oracle.stale_iterator_finalised_during_next_connection', 'oracle.stale_iterator_stepped_during_next_connection', 'oracle.keys_compared', 'oracle.persist_chains', 'oracle.compressed_frames_inflated']}
+REQUIRED = {'all': ['oracle.pairs_compared', 'oracle.stale_iterator_finalised_during_next_connection', 'oracle.stale_iterator_stepped_during_next_connection', 'oracle.older_loop_continuations_compared', 'oracle.keys_compared', 'oracle.persist_chains', 'oracle.compressed_frames_inflated']}
 RULE = ('metamorphic: history A (with an abnormal ending: EOF mid-header / mid-frame-header / mid-extended-length / '
         'mid-payload / inside a fragmented message / inside a split UTF-8 character / after compressed traffic in '
         'both directions / while closing / rejected / connect failure / protocol error / unresponsive / abandoned '
